@@ -2,6 +2,7 @@ package main
 
 import (
 	"fmt"
+	"go/constant"
 	"sort"
 	"strings"
 
@@ -35,6 +36,9 @@ func init() {
 		Variant{ID: "c10-r2-short-bigendian", Prop: "C10", File: "replication/binlog_event_rbr.go",
 			Old: "\tcase TypeShort:\n\t\tval := binary.LittleEndian.Uint16(data[pos : pos+2])", New: "\tcase TypeShort:\n\t\tval := binary.BigEndian.Uint16(data[pos : pos+2])",
 			Expect: "C10-R2 value@TypeShort"},
+		Variant{ID: "c10-r4-decimal-sign-by-flag", Prop: "C10", File: "replication/binlog_event_rbr.go",
+			Old: "\t\tisNegative := (d[0] & 0x80) == 0\n", New: "\t\tisNegative := (d[0]&0x80) == 0 && !isUnSignedInt\n",
+			Expect: "C10-R4 flag-scope@TypeNewDecimal"},
 		Variant{ID: "c10-r3-float-exponent", Prop: "C10", File: "replication/binlog_event_rbr.go",
 			Old: "\t\treturn strconv.AppendFloat(nil, float64(fVal), 'f', -1, 32), 4, nil", New: "\t\treturn strconv.AppendFloat(nil, float64(fVal), 'g', -1, 32), 4, nil",
 			Expect: "C10-R3 value@TypeFloat"},
@@ -54,6 +58,7 @@ func runC10(a *A) {
 	}
 	c10R1(a, cd)
 	c10Values(a, cd)
+	c10R4(a, cd)
 }
 
 // R1 (= C15-R4): everything at a CellBytes call site is taken at the same column ordinal.
@@ -280,4 +285,96 @@ func renderMap(m map[string]string) string {
 		out = append(out, c+" -> "+m[k])
 	}
 	return strings.Join(out, "; ")
+}
+
+// R4: the mapper's unsigned flag means something for the five integer types only. For every other column type the
+// decoder handles, the code that runs for that type (blocks executable when the type parameter is bound to the type's
+// constant; in-package callees that receive the flag are followed with their constant arguments bound) must not read
+// the flag: the text of a DECIMAL, temporal, string, JSON ... cell is a function of the bytes, the type and the
+// metadata. (DECIMAL UNSIGNED, FLOAT UNSIGNED etc. are stored exactly like their signed forms.) Instances: one per
+// handled non-integer type, keyed by the type's name.
+func c10R4(a *A, cd *codec) {
+	const rule = "C10-R4"
+	w := a.W
+	f := cd.valFn
+	if len(f.Params) < 5 {
+		a.hold(rule, "flag-scope@none", w.pos(f.Pos()), "the value decoder takes no unsigned flag")
+		return
+	}
+	ints := map[string]bool{"TypeTiny": true, "TypeShort": true, "TypeInt24": true, "TypeLong": true, "TypeLongLong": true}
+	var uses func(fn *ssa.Function, flag ssa.Value, bind map[ssa.Value]constant.Value, depth int) ssa.Instruction
+	uses = func(fn *ssa.Function, flag ssa.Value, bind map[ssa.Value]constant.Value, depth int) ssa.Instruction {
+		r := specializeAt(fn, bind, cd.tables, 0)
+		var found ssa.Instruction
+		for _, b := range fn.Blocks {
+			if !r.Exec[b] || found != nil {
+				continue
+			}
+			for _, in := range b.Instrs {
+				if found != nil {
+					break
+				}
+				var ops []*ssa.Value
+				hit := false
+				for _, op := range in.Operands(ops) {
+					if op != nil && *op == flag {
+						hit = true
+					}
+				}
+				if !hit {
+					continue
+				}
+				if _, isDbg := in.(*ssa.DebugRef); isDbg {
+					continue
+				}
+				if c, ok := in.(*ssa.Call); ok && depth < maxInline {
+					if cal := c.Common().StaticCallee(); cal != nil && cal.Blocks != nil && cal.Pkg == fn.Pkg && cal != fn {
+						sub := map[ssa.Value]constant.Value{}
+						var inner ssa.Instruction
+						for i, arg := range c.Common().Args {
+							if i >= len(cal.Params) {
+								break
+							}
+							if l := r.get(arg); l.k == cst && !l.nilc && l.tbl == nil && l.v != nil && l.v.Kind() != constant.Unknown {
+								sub[cal.Params[i]] = l.v
+							}
+						}
+						for i, arg := range c.Common().Args {
+							if i < len(cal.Params) && arg == flag {
+								if u := uses(cal, cal.Params[i], sub, depth+1); u != nil {
+									inner = u
+								}
+							}
+						}
+						found = inner
+						continue
+					}
+				}
+				found = in
+			}
+		}
+		return found
+	}
+	handled := cd.handledTypes(f, 2)
+	n := 0
+	for _, t := range sortedTypes(handled) {
+		name := cd.typeName[t]
+		if name == "" {
+			name = fmt.Sprintf("type%d", t)
+		}
+		if ints[name] {
+			continue
+		}
+		n++
+		a.Evals++
+		u := uses(f, f.Params[4], cd.bind(f, spec{t, -1}), 0)
+		if u == nil {
+			a.hold(rule, "flag-scope@"+name, w.pos(f.Pos()), "the code that decodes this type never reads the unsigned flag")
+		} else {
+			a.viol(rule, "flag-scope@"+name, w.posOf(u), "the decoding of %s reads the mapper's unsigned flag (%s): the flag is defined for integer columns only, and every other type is stored identically with or without UNSIGNED - its text must depend on bytes, type and metadata alone", name, u.String())
+		}
+	}
+	if n < 10 {
+		a.undecided(rule, "flag-scope@types", w.pos(f.Pos()), "only %d non-integer column types found in the value decoder (expected at least 10): shape not recognised", n)
+	}
 }
